@@ -625,11 +625,15 @@ fn peel_references(
             let mut peeled = false;
             loop {
                 match &p.bounded_ty {
-                    // (The object lifetime of a bare `dyn Trait` would become `'static`.)
+                    // (The object lifetime of a bare `dyn Trait`, which a macro in type position
+                    // may stand for as well, would become `'static`.)
                     syn::Type::Reference(r)
                         if !matches!(
                             &*r.elem,
-                            syn::Type::TraitObject(_) | syn::Type::Paren(_) | syn::Type::Group(_),
+                            syn::Type::TraitObject(_)
+                                | syn::Type::Paren(_)
+                                | syn::Type::Group(_)
+                                | syn::Type::Macro(_),
                         ) =>
                     {
                         p.bounded_ty = (*r.elem).clone();
